@@ -65,7 +65,7 @@ def make_isoforms(d, blocks, max_tx):
 
 def gen_reference(d, n_genes=(1, 2), max_tx=2, exon_len=(12, 70), intron_len=(3, 30),
         n_exons=(1, 3), p_coding=0.7, p_sec=0.45, p_nf=0.12, min_codons=8,
-        p_minus=None, utr_styles=('gencode', 'gencode', 'ensembl', 'none')) -> dict:
+        p_minus=None, utr_styles=('gencode', 'gencode', 'ensembl')) -> dict:
     # pylint: disable=too-many-locals,too-many-branches,too-many-statements
     ng = d.randint(*n_genes)
     chrom_names = ['chr1', 'chr2']
@@ -204,6 +204,8 @@ def gen_reference(d, n_genes=(1, 2), max_tx=2, exon_len=(12, 70), intron_len=(3,
                         break
                 c += 3
             if e is None:
+                if p_nf <= 0:
+                    continue      # stays a non-coding isoform
                 t['tags'].append('mRNA_end_NF')
                 e = n
             elif (e - s) // 3 < 4:
